@@ -168,4 +168,34 @@ PROPS = {
             "schemas whose inputs flatten to zero columns (a single one-class categorical feature) are skipped",
         ],
     },
+    "C10": {
+        "harness": "c10_wlearner",
+        "level": "exploration",
+        "rule": ("one run = one seeded dataset (2-60 samples, 1-8 scalar / single-label / multi-label features with missing values and ties, 1-6 outputs), an arbitrary "
+                 "gradient tensor, a sample subset with or without repetition, one of the 8 registered weak learners and one of the 4 criteria; the learner is fitted on "
+                 "one simulated core and again through the dataset pool (1-16 workers) under the run's simulated core count and seeded schedule; oracles: schedule "
+                 "differential (score, selected feature, predictions), brute force over the hypothesis class with the RSS criterion (stump, hinge, affine, dense table, "
+                 "discrete step), and the consistency clauses (additive, zero when missing, per-sample, table of the split() group, scale, merge, depth-1 tree == stump); "
+                 "non-trivial = at least 2 simulated threads and 1 context switch; distinct = distinct trace hash"),
+        "batches": [
+            {"name": "plain", "cfg": "plain", "tiers": ["quick", "thorough"], "runs": {"quick": 40000, "thorough": 2000000},
+             "wall_cap": {"quick": 200, "thorough": 2400}},
+            {"name": "tsan", "cfg": "tsan", "tiers": ["quick", "thorough"], "runs": {"quick": 6000, "thorough": 300000},
+             "extra": ["--set", "max_cores=6"], "wall_cap": {"quick": 200, "thorough": 2400}},
+            {"name": "asan", "cfg": "asan", "tiers": ["quick", "thorough"], "runs": {"quick": 8000, "thorough": 300000},
+             "wall_cap": {"quick": 200, "thorough": 2400}},
+        ],
+        "gate": {"quick": 60, "thorough": 500},
+        "shrink": [("pool", 2), ("cores", 2), ("sim_faults", 0), ("p_spurious_ppm", 0), ("p_eagain_ppm", 0)],
+        "expected_probes": ["fits_through_the_pool", "brute_force_compared", "fitted_stump", "fitted_hinge", "fitted_affine", "fitted_dense-table", "fitted_dstep-table",
+                            "fitted_kbest-table", "fitted_ksplit-table", "fitted_dtree", "single_feature_clauses", "scale_per_group", "scale_scalar",
+                            "merge_merged_something", "depth1_tree_vs_stump", "rt_futex_blocked"],
+        "real": REAL_COMMON + ["all 8 weak learners (fit through select_iterator_t / the dataset pool, per-worker caches, min_reduce), predict, split, scale, wlearner::merge"],
+        "stub": STUB_COMMON,
+        "assumptions": ASSUME_COMMON + [
+            "feature values for the brute-force reference come from dataset_t::select called directly on one core (C08)",
+            "the 'predictions reproduce the reported RSS' clause is stated for stump, hinge, affine, dense table and discrete step only; k-best / k-split tables and trees are decided by the schedule differential and the consistency clauses",
+            "learners that reject per-group scale factors are only checked with a scalar factor",
+        ],
+    },
 }
